@@ -516,8 +516,8 @@ class Gaussian(Leaf):
         :raises ValueError: If a parameter is out of domain.
         """
         super().__init__(scope)
-        if stddev <= 1e-5:
-            raise ValueError("The standard deviation of a Gaussian must be greater than 1e-5")
+        if stddev < 1e-5:
+            raise ValueError("The standard deviation of a Gaussian must be at least 1e-5")
 
         self.mean = mean
         self.stddev = stddev
